@@ -59,6 +59,10 @@ impl<T: UciTx, H: Heuristic, M: MoveOrder> Search<T, H, M> {
                     UciQuit => {
                         self.flags.quit_as_soon_as_possible = true;
                     }
+                    #[cfg(inkayaku_verif)]
+                    SearchMessage::VerifDumpFen => {
+                        self.uci_tx.debug(&format!("verif-fen {}", Fen::from(&self.state.bitboard).fen));
+                    }
                 }
             }
         }
@@ -114,6 +118,8 @@ impl<T: UciTx, H: Heuristic, M: MoveOrder> Search<T, H, M> {
                         self.flags.stop_as_soon_as_possible = true;
                         self.flags.quit_as_soon_as_possible = true;
                     }
+                    #[cfg(inkayaku_verif)]
+                    SearchMessage::VerifDumpFen => {}
                 },
                 Err(error) => {
                     self.uci_tx.debug(&format!("{}", error));
@@ -289,9 +295,16 @@ impl<T: UciTx, H: Heuristic, M: MoveOrder> Search<T, H, M> {
         calculate_heuristic_factor(color) * self.heuristic.evaluate(&self.state.bitboard, zobrist_pawn_hash, legal_moves_remaining)
     }
 
+    #[cfg(not(inkayaku_verif))]
     #[inline(always)]
     fn should_check_flags(&mut self) -> bool {
         self.state.metrics.last.negamax_nodes % 100_000 == 0 && self.state.metrics.last.negamax_nodes > 0
+    }
+
+    /// Verification build: same test with an adjustable polling period.
+    #[cfg(inkayaku_verif)]
+    fn should_check_flags(&mut self) -> bool {
+        self.state.metrics.last.negamax_nodes % verif_control::poll_period() == 0 && self.state.metrics.last.negamax_nodes > 0
     }
 
     fn filter_search_moves(&mut self, buffer: &mut Vec<Move>) {
@@ -312,6 +325,18 @@ impl<T: UciTx, H: Heuristic, M: MoveOrder> Search<T, H, M> {
         let check_flags = self.should_check_flags();
         if check_flags {
             self.check_messages();
+
+            // Verification test point: behave as if `stop` (mode 0) had just arrived, or as if the
+            // move time had just run out (mode 1), when exactly `n` negamax nodes have been counted.
+            #[cfg(inkayaku_verif)]
+            if let Some((n, mode)) = verif_control::abort_at() {
+                if n == self.state.metrics.last.negamax_nodes {
+                    self.flags.stop_as_soon_as_possible = true;
+                    if mode == 1 {
+                        return ValuedMove::leaf(0);
+                    }
+                }
+            }
             self.uci_tx.info(&Info {
                 time: Some(self.state.elapsed()),
                 ..self.generate_info()
@@ -603,6 +628,30 @@ pub enum SearchMessage {
     UciStop,
     UciPonderHit,
     UciQuit,
+    #[cfg(inkayaku_verif)]
+    VerifDumpFen,
+}
+
+#[cfg(inkayaku_verif)]
+pub mod verif_control {
+    use std::sync::atomic::{AtomicU64, Ordering};
+
+    static POLL_PERIOD: AtomicU64 = AtomicU64::new(100_000);
+    static ABORT_AT: AtomicU64 = AtomicU64::new(u64::MAX);
+    static ABORT_MODE: AtomicU64 = AtomicU64::new(0);
+
+    pub fn set_poll_period(period: u64) { POLL_PERIOD.store(period.max(1), Ordering::SeqCst) }
+    pub fn poll_period() -> u64 { POLL_PERIOD.load(Ordering::SeqCst) }
+    /// `Some((n, mode))`: at the poll where the negamax node counter equals `n`; mode 0 = stop flag, mode 1 = move time expired.
+    pub fn set_abort_at(at: Option<(u64, u64)>) {
+        let (n, mode) = at.unwrap_or((u64::MAX, 0));
+        ABORT_MODE.store(mode, Ordering::SeqCst);
+        ABORT_AT.store(n, Ordering::SeqCst);
+    }
+    pub fn abort_at() -> Option<(u64, u64)> {
+        let n = ABORT_AT.load(Ordering::SeqCst);
+        if n == u64::MAX { None } else { Some((n, ABORT_MODE.load(Ordering::SeqCst))) }
+    }
 }
 
 /// UCI options
